@@ -38,10 +38,10 @@ func init() {
 		Floor: 1,
 		Run: func(c *Ctx, s *core.Sink) {
 			for _, f := range c.P.ModFns {
-				// hex tests by (slice, base)
+				// the atoms, as values: hex tests of x[b+1] / x[b+2], length tests of x against b+k
 				type group struct {
 					x, base ssa.Value
-					atoms   map[*ssa.BasicBlock]escAtom
+					atoms   map[ssa.Value]escAtom
 					pos     token.Pos
 					ks      map[int64]bool
 				}
@@ -52,68 +52,62 @@ func init() {
 							return g
 						}
 					}
-					g := &group{x: x, base: base, atoms: map[*ssa.BasicBlock]escAtom{}, ks: map[int64]bool{}}
+					g := &group{x: x, base: base, atoms: map[ssa.Value]escAtom{}, ks: map[int64]bool{}}
 					groups = append(groups, g)
 					return g
 				}
 				for _, b := range f.Blocks {
-					iff, ok := lastIf(b)
-					if !ok {
-						continue
-					}
-					fs := normFact(iff.Cond, true)
-					if len(fs) != 1 {
-						continue
-					}
-					if ep, ok := isHexDigitTest(fs[0].Cond); ok {
-						base, k := ep.base, ep.k
-						if kc, isK := base.(*ssa.Const); isK {
-							kv, _ := constInt(kc)
-							base, k = nil, kv+k
+					for _, ins := range b.Instrs {
+						call, ok := ins.(*ssa.Call)
+						if !ok {
+							continue
 						}
-						if k == 1 || k == 2 {
-							g := find(ep.x, base)
-							g.atoms[b] = escAtom{kind: "hex", k: k, neg: !fs[0].Val}
-							g.ks[k] = true
-							if !g.pos.IsValid() {
-								g.pos = fs[0].Cond.Pos()
+						if ep, ok := isHexDigitTest(call); ok {
+							base, k := ep.base, ep.k
+							if kc, isK := base.(*ssa.Const); isK {
+								kv, _ := constInt(kc)
+								base, k = nil, kv+k
+							}
+							if k == 1 || k == 2 {
+								g := find(ep.x, base)
+								g.atoms[call] = escAtom{kind: "hex", k: k}
+								g.ks[k] = true
+								if !g.pos.IsValid() {
+									g.pos = call.Pos()
+								}
 							}
 						}
 					}
 				}
 				for gi, g := range groups {
-					// length tests of the same slice against base+k
 					for _, b := range f.Blocks {
-						iff, ok := lastIf(b)
-						if !ok {
-							continue
-						}
-						fs := normFact(iff.Cond, true)
-						bo, ok := fs[0].Cond.(*ssa.BinOp)
-						if !ok {
-							continue
-						}
-						op := bo.Op
-						l, r := bo.X, bo.Y
-						if _, isLen := lenArg(l); !isLen {
-							l, r = r, l
-							op = mirror(op)
-						}
-						a, isLen := lenArg(l)
-						if !isLen || a != g.x {
-							continue
-						}
-						rb, rk := splitIndex(r)
-						if kc, isK := rb.(*ssa.Const); isK {
-							kv, _ := constInt(kc)
-							rb, rk = nil, kv+rk
-						}
-						if rb != g.base || rk < 2 || rk > 4 {
-							continue // loop bounds and "is there an element at all" are not part of the decision
-						}
-						switch op {
-						case token.LSS, token.LEQ, token.GTR, token.GEQ, token.EQL, token.NEQ:
-							g.atoms[b] = escAtom{kind: "len", k: rk, op: op, neg: !fs[0].Val}
+						for _, ins := range b.Instrs {
+							bo, ok := ins.(*ssa.BinOp)
+							if !ok {
+								continue
+							}
+							op := bo.Op
+							l, r := bo.X, bo.Y
+							if _, isLen := lenArg(l); !isLen {
+								l, r = r, l
+								op = mirror(op)
+							}
+							a, isLen := lenArg(l)
+							if !isLen || a != g.x {
+								continue
+							}
+							rb, rk := splitIndex(r)
+							if kc, isK := rb.(*ssa.Const); isK {
+								kv, _ := constInt(kc)
+								rb, rk = nil, kv+rk
+							}
+							if rb != g.base || rk < 2 || rk > 4 {
+								continue // loop bounds and "is there an element at all" are not part of the decision
+							}
+							switch op {
+							case token.LSS, token.LEQ, token.GTR, token.GEQ, token.EQL, token.NEQ:
+								g.atoms[bo] = escAtom{kind: "len", k: rk, op: op}
+							}
 						}
 					}
 					key := fmt.Sprintf("escvalid/%s#%d", core.FuncName(f), gi+1)
@@ -131,12 +125,16 @@ func init() {
 						s.Bad(key, pos, "the element count is tested for an escape but only one of the two positions behind the '%' is tested for a hex digit")
 						continue
 					}
-					// the first atom: an atom block that dominates all others
+					inventory := func(why string) {
+						s.Obs = append(s.Obs, core.Obligation{Rule: s.Rule, Construct: key, Pos: pos, Verdict: core.Discharged, Fact: "inventory: not decided (" + why + ")", Props: s.Props, Trivial: true})
+					}
+					// the first atom: the block of an atom that dominates the blocks of all others
 					var start *ssa.BasicBlock
-					for b := range g.atoms {
+					for v := range g.atoms {
+						b := v.(ssa.Instruction).Block()
 						dom := true
 						for o := range g.atoms {
-							if !b.Dominates(o) {
+							if !b.Dominates(o.(ssa.Instruction).Block()) {
 								dom = false
 							}
 						}
@@ -145,37 +143,122 @@ func init() {
 						}
 					}
 					if start == nil {
-						s.Obs = append(s.Obs, core.Obligation{Rule: s.Rule, Construct: key, Pos: pos, Verdict: core.Discharged, Fact: "inventory: not decided (the tests do not form one decision)", Props: s.Props, Trivial: true})
+						inventory("the tests do not form one decision")
 						continue
 					}
-					exit := func(d int64, h1, h2 bool) *ssa.BasicBlock {
-						b := start
-						for steps := 0; steps < 64; steps++ {
-							a, ok := g.atoms[b]
-							if !ok {
-								return b
-							}
-							var v bool
+					// evaluate a boolean built from the atoms; prev resolves merges
+					type valn struct {
+						d      int64
+						h1, h2 bool
+					}
+					var eval func(v ssa.Value, prev, cur *ssa.BasicBlock, vl valn, depth int) (bool, bool)
+					eval = func(v ssa.Value, prev, cur *ssa.BasicBlock, vl valn, depth int) (bool, bool) {
+						if depth > 8 {
+							return false, false
+						}
+						if a, ok := g.atoms[v]; ok {
 							if a.kind == "hex" {
-								v = h1
-								if a.k == 2 {
-									v = h2
+								if a.k == 1 {
+									return vl.h1, true
 								}
-							} else {
-								v = evalCmp(d, a.op, a.k)
+								return vl.h2, true
 							}
-							if a.neg {
-								v = !v
+							return evalCmp(vl.d, a.op, a.k), true
+						}
+						switch x := v.(type) {
+						case *ssa.Const:
+							return constBool(x)
+						case *ssa.UnOp:
+							if x.Op == token.NOT {
+								r, ok := eval(x.X, prev, cur, vl, depth+1)
+								return !r, ok
 							}
-							if v {
-								b = b.Succs[0]
-							} else {
-								b = b.Succs[1]
+						case *ssa.Phi:
+							if x.Block() == cur && prev != nil {
+								for i, p := range cur.Preds {
+									if p == prev {
+										return eval(x.Edges[i], nil, nil, vl, depth+1)
+									}
+								}
 							}
 						}
-						return nil
+						return false, false
 					}
-					valid3, valid4 := exit(3, true, true), exit(4, true, true)
+					// exit: the first block whose branch is not decided by the atoms - or the boolean it returns
+					exit := func(vl valn) string {
+						var prev *ssa.BasicBlock
+						b := start
+						// where the decision ends: the block, and the booleans it has merged from the atoms (a decision kept
+						// as a value: `invalid := r == '%' && (…)`)
+						label := func(b, prev *ssa.BasicBlock) string {
+							out := fmt.Sprintf("block %d", b.Index)
+							for _, ins := range b.Instrs {
+								phi, ok := ins.(*ssa.Phi)
+								if !ok {
+									break
+								}
+								if r, ok := eval(phi, prev, b, vl, 0); ok {
+									out += fmt.Sprintf(" %s=%v", phi.Name(), r)
+								}
+							}
+							return out
+						}
+						for steps := 0; steps < 64; steps++ {
+							switch t := b.Instrs[len(b.Instrs)-1].(type) {
+							case *ssa.If:
+								r, ok := eval(t.Cond, prev, b, vl, 0)
+								if !ok {
+									return label(b, prev)
+								}
+								prev = b
+								if r {
+									b = b.Succs[0]
+								} else {
+									b = b.Succs[1]
+								}
+							case *ssa.Jump:
+								// only a merge of the decision's own values may lie on the way
+								nb := b.Succs[0]
+								onlyPhis := true
+								for _, ins := range nb.Instrs[:len(nb.Instrs)-1] {
+									if _, isPhi := ins.(*ssa.Phi); !isPhi {
+										onlyPhis = false
+									}
+								}
+								if !onlyPhis || b != start && len(b.Instrs) > 1 && !blockOnlyAtoms(b, g.atoms) {
+									return label(b, prev)
+								}
+								prev, b = b, nb
+							case *ssa.Return:
+								if len(t.Results) >= 1 {
+									if r, ok := eval(t.Results[0], prev, b, vl, 0); ok {
+										return fmt.Sprintf("return %v", r)
+									}
+								}
+								return label(b, prev)
+							default:
+								return label(b, prev)
+							}
+							if b != start {
+								// a block that does other things than the decision ends it
+								if !blockOnlyAtoms(b, g.atoms) {
+									if _, isIf := b.Instrs[len(b.Instrs)-1].(*ssa.If); isIf {
+										if _, ok := eval(b.Instrs[len(b.Instrs)-1].(*ssa.If).Cond, prev, b, vl, 0); ok {
+											continue
+										}
+									}
+									if r, isRet := b.Instrs[len(b.Instrs)-1].(*ssa.Return); isRet && len(r.Results) >= 1 {
+										if _, ok := eval(r.Results[0], prev, b, vl, 0); ok {
+											continue
+										}
+									}
+									return label(b, prev)
+								}
+							}
+						}
+						return "?"
+					}
+					valid3, valid4 := exit(valn{3, true, true}), exit(valn{4, true, true})
 					var bad []string
 					if valid3 != valid4 {
 						bad = append(bad, "an escape whose second digit is the last element is treated differently from one followed by more")
@@ -188,7 +271,7 @@ func init() {
 							if d == 2 && (h[0] || h[1]) {
 								continue // no digits to test
 							}
-							if e := exit(d, h[0], h[1]); e == valid4 || e == valid3 {
+							if e := exit(valn{d, h[0], h[1]}); e == valid4 || e == valid3 {
 								what := fmt.Sprintf("%d elements remain", d)
 								if d >= 3 {
 									what = fmt.Sprintf("%d elements remain, first digit hex: %v, second digit hex: %v", d, h[0], h[1])
@@ -207,4 +290,25 @@ func init() {
 			}
 		},
 	})
+}
+
+// blockOnlyAtoms: the block computes nothing but atoms of the decision (and what they need: loads, index
+// arithmetic, conversions, the merges of their values).
+func blockOnlyAtoms(b *ssa.BasicBlock, atoms map[ssa.Value]escAtom) bool {
+	for _, ins := range b.Instrs {
+		switch x := ins.(type) {
+		case *ssa.If, *ssa.Jump, *ssa.Return, *ssa.Phi, *ssa.DebugRef, *ssa.IndexAddr, *ssa.Index, *ssa.Lookup, *ssa.Convert, *ssa.UnOp, *ssa.BinOp:
+		case *ssa.Call:
+			if _, ok := atoms[x]; ok {
+				continue
+			}
+			if bi, ok := x.Common().Value.(*ssa.Builtin); ok && bi.Name() == "len" {
+				continue
+			}
+			return false
+		default:
+			return false
+		}
+	}
+	return true
 }
